@@ -60,11 +60,11 @@ RULE = ("all sequences of length 3-5 over a 3-value pool, all angle tuples of si
 
 
 # ----------------------------------------------------------------------------- implementation calls
-def impl_ffi(xs, angular):
+def impl_ffi(xs, angular, dtype="float64"):
     from scores.continuous import flip_flop_index
     with np.errstate(all="ignore"), warnings.catch_warnings():
         warnings.simplefilter("ignore")
-        return float(flip_flop_index(xr.DataArray(np.array(xs, dtype=float), dims=["".join(["le", "ad"])]), "".join(["lea", "d"]),
+        return float(flip_flop_index(xr.DataArray(np.array(xs, dtype=dtype), dims=["".join(["le", "ad"])]), "".join(["lea", "d"]),
                                      is_angular=angular))
 
 
@@ -154,6 +154,175 @@ def exhaustive_angles(ctx):
     return out
 
 
+# ----------------------------------------------------------------------------- storage dtypes
+# The statement is about the NUMBERS of the sequence, whatever dtype they are stored in: the expected value of a typed case
+# is the model / spec value of the same numbers as exact rationals.  Values sit at the limits of the dtype (0, 3, 250, 255
+# for uint8) so that arithmetic carried out in the storage dtype (wrap-around of unsigned differences, overflow of a signed
+# range) becomes visible.  Everything is kept below 2**40 in magnitude so sums stay exact in float64.
+INT_DTYPES = ["uint8", "uint16", "uint32", "uint64", "int8", "int16", "int32", "int64"]
+F32_RTOL = 1e-6      # float32 arithmetic: the final quotient by N-2 is rounded to float32
+CAP = 2 ** 40
+
+
+def dtype_pool(dt):
+    ii = np.iinfo(dt)
+    lo, hi = max(int(ii.min), -CAP), min(int(ii.max), CAP)
+    mid = (lo + hi) // 2
+    vals = {lo, lo + 1, lo + 3, lo + 6, hi, hi - 1, hi - 5, hi - 55, mid, mid + 1, mid - 2, 0, 1, 2, 3, 50, 100, 127}
+    if lo < 0:
+        vals |= {-1, -2, -100, -128}
+    return sorted(v for v in vals if lo <= v <= hi)
+
+
+def gen_typed_linear(rng):
+    """(xs, dtype): integer sequences at the limits of an integer dtype, or dyadic / NaN sequences stored as float32"""
+    if rng.random() < 0.12:
+        return gen_linear(rng), "float32"
+    dt = rng.choice(INT_DTYPES)
+    full = dtype_pool(dt)
+    if dt.startswith("int") and rng.random() < 0.8:
+        # the spread stays within the dtype (the other 20 %: spread beyond the signed maximum, see notes/C18.md)
+        c = rng.choice(full)
+        half = int(np.iinfo(dt).max) // 2
+        full = [v for v in full if abs(v - c) <= half] or [c]
+    pool = rng.sample(full, min(len(full), rng.randint(2, 4)))
+    n = rng.randint(3, 6)
+    r = rng.random()
+    if r < 0.15:
+        xs = sorted(rng.choice(pool) for _ in range(n))
+        if rng.random() < 0.5:
+            xs = xs[::-1]
+    elif r < 0.2:
+        xs = [rng.choice(pool)] * n
+    else:
+        xs = [rng.choice(pool) for _ in range(n)]
+    return xs, dt
+
+
+def gen_typed_angles(rng):
+    """(xs, dtype): whole-degree directions stored in an integer dtype, or lattice directions stored as float32"""
+    if rng.random() < 0.2:
+        return gen_angles(rng), "float32"
+    r = rng.random()
+    dt = rng.choice(["int16", "int32", "int64"]) if r < 0.8 else rng.choice(["uint16", "uint32", "uint64"]) if r < 0.92 \
+        else rng.choice(["uint8", "int8"])
+    xs = [x for x in gen_angles(rng) if not math.isnan(x)]
+    xs = [int(math.floor(x)) for x in (xs + xs[:1])[: max(3, len(xs))]]
+    if dt.startswith("uint"):
+        xs = [x % 360 + 360 * rng.randint(0, 1) for x in xs]
+    if dt == "uint8":
+        xs = [x % 256 for x in xs]
+    if dt == "int8":
+        xs = [x % 256 - 128 for x in xs]
+    return xs, dt
+
+
+def wrap_signed(v, dt):
+    b = 8 * np.dtype(dt).itemsize
+    return (v + 2 ** (b - 1)) % 2 ** b - 2 ** (b - 1)
+
+
+def dtype_finding(xs, dt, angular):
+    """input classes on which the UNCHANGED code computes in the storage dtype and goes wrong (notes/C18.md); None otherwise"""
+    d = np.dtype(dt)
+    if d.kind not in "iu":
+        return None
+    if angular:
+        if d.itemsize == 1:
+            return "C18-INT2"      # data % 360 raises OverflowError for 8-bit data
+        return "C18-INT3" if d.kind == "u" else None      # unsigned differences wrap inside the sector routine
+    if d.kind == "i" and max(xs) - min(xs) > int(np.iinfo(dt).max):
+        return "C18-INT1"          # max - min overflows the signed dtype
+    return None
+
+
+def typed_tol(dt):
+    # xarray's shift promotes integers of <= 16 bits to float32 (exact on these values; only the final quotient is rounded)
+    return F32_RTOL if dt == "float32" or np.dtype(dt).itemsize <= 2 else 1e-9
+
+
+def typed_case(xs, dt, angular):
+    return {"xs": [core.fl_str(x) for x in xs], "angular": angular, "dtype": dt}
+
+
+def typed_stream(ctx, k=1):
+    rng = ctx.rng
+    out = [([250, 3, 200], "uint8", False), ([50, 20, 40, 80], "uint16", False), ([0, 255, 0, 255], "uint8", False)]
+    for _ in range(ctx.n(300, 3000) * k):
+        out.append(gen_typed_linear(rng) + (False,))
+    for _ in range(ctx.n(150, 1500) * k):
+        out.append(gen_typed_angles(rng) + (True,))
+    return out
+
+
+def check_typed(ctx, cases, kind, batch):
+    """kind='correspondence': implementation on typed storage vs the model of the same numbers;
+    kind='property': vs the closed formula (spec), non-negativity, zero iff monotone, reversal, shift within the dtype."""
+    fin = [(xs, dt, ang) for xs, dt, ang in cases if finite(xs)]
+    if kind == "correspondence":
+        res = core.run_driver("C18", [{"op": "c18.ffi", "args": {"xs": [core.fl_str(x) for x in xs], "angular": ang}} for xs, dt, ang in cases])
+        exp = {(tuple(xs), ang): r for (xs, dt, ang), r in zip(cases, res) if finite(xs)}
+    else:
+        res = core.run_driver("C18", [{"op": "c18.spec", "args": {"xs": [core.fl_str(x) for x in xs]}} for xs, dt, ang in fin])
+        exp = {(tuple(xs), ang): r["ffi_ang" if ang else "ffi"] for (xs, dt, ang), r in zip(fin, res)}
+    for xs, dt, ang in cases:
+        case = typed_case(xs, dt, ang)
+        find = dtype_finding(xs, dt, ang) if finite(xs) else None
+        tags = {"dtype": dt, "angular": ang}
+        ctx.tag("typed-" + dt + ("-ang" if ang else "-lin") + ("-finding" if find else ""))
+        try:
+            v = impl_ffi(xs, ang, dt)
+        except Exception as ex:
+            ctx.case(batch, case, nontrivial=False)
+            cls = core.exc_class(ex)
+            if find == "C18-INT2" and cls == "Other:OverflowError":
+                tags["defect"] = find
+            ctx.fail(batch, kind, "flip_flop_index", "exception", case, observed=cls + ": " + str(ex)[:120], expected="a value", tags=tags)
+            continue
+        ctx.case(batch, case, nontrivial=math.isfinite(v))
+        if not finite(xs):
+            if not math.isnan(v):
+                ctx.fail(batch, kind, "flip_flop_index", "nan-not-propagated", case, observed=v, expected="nan", tags=tags,
+                         theorem="ffi_nan_iff")
+            continue
+        e = exp[(tuple(xs), ang)]
+        tol = typed_tol(dt)
+        if not core.close(v, e, rtol=tol):
+            if find == "C18-INT3":
+                tags["defect"] = find
+            elif find == "C18-INT1":
+                # exactly the value obtained when max - min is evaluated in the signed storage dtype
+                tv = sum(abs(b - a) for a, b in zip(xs, xs[1:]))
+                w = Fraction(tv - wrap_signed(max(xs) - min(xs), dt), len(xs) - 2)
+                if core.close(v, w):
+                    tags["defect"] = find
+            ctx.fail(batch, kind, "flip_flop_index", "value-differs-from-formula" if kind == "property" else "value", case,
+                     observed=v, expected=e, tags=tags, theorem="ffi_angular_formula" if ang else "ffi_formula")
+            continue
+        if kind != "property" or find:
+            continue
+        if v < 0:
+            ctx.fail(batch, kind, "flip_flop_index", "negative", case, observed=v, expected=">= 0", tags=tags, theorem="ffi_nonneg")
+        if not ang and is_monotone(xs) != (v == 0.0):
+            ctx.fail(batch, kind, "flip_flop_index", "zero-iff-monotone", case, observed=v,
+                     expected="0" if is_monotone(xs) else "> 0", tags=tags, theorem="ffi_monotone_zero")
+        rel = [("reverse", xs[::-1])]
+        if np.dtype(dt).kind in "iu":
+            ii = np.iinfo(dt)
+            room = [s for s in (int(ii.min) - min(xs), int(ii.max) - max(xs), 1, -1, 7) if s and int(ii.min) <= min(xs) + s
+                    and max(xs) + s <= int(ii.max) and abs(max(xs) + s) <= CAP and abs(min(xs) + s) <= CAP]
+            if room:
+                s = ctx.rng.choice(room)
+                rel.append(("rotation" if ang else "shift", [x + s for x in xs]))
+        for how, ys in rel:
+            if dtype_finding(ys, dt, ang):
+                continue
+            v2 = impl_ffi(ys, ang, dt)
+            if not core.close_ff(v2, v, rtol=tol):
+                ctx.fail(batch, kind, "flip_flop_index", "not-invariant-under-" + how, case, observed={"value": v, how: v2, "ys": ys},
+                         expected=v, tags=tags, theorem="ffiAng_rotation" if how == "rotation" else "ffi_" + how)
+
+
 # ----------------------------------------------------------------------------- correspondence
 def correspondence(ctx):
     rng = ctx.rng
@@ -205,6 +374,8 @@ def correspondence(ctx):
         ctx.tag("sector-skipna" if sk else "sector-strict")
         if not core.close(v, m) or not core.close(v2, m):
             ctx.fail(batch, "correspondence", "encompassing_sector_size", "value", case, observed=[v, v2], expected=m, tags={"skipna": sk})
+    # the same numbers stored in integer / float32 dtypes
+    check_typed(ctx, typed_stream(ctx), "correspondence", "impl-vs-model-dtypes")
     # arrays with extra dims, selections, proportion exceeding
     arr_cases = [gen_array_case(rng) for _ in range(ctx.n(120, 1200))]
     run_arrays(ctx, arr_cases, "impl-vs-model-arrays", "correspondence")
@@ -239,7 +410,24 @@ def gen_array_case(rng):
     if rng.random() < 0.5:
         coords = sorted(coords)
     dims = extras + ["lead"]
-    data = np.array(rows, dtype=float).reshape([sizes[d] for d in extras] + [n])
+    dtype = "float64"
+    if rng.random() < 0.3:
+        # typed storage; only classes free of the dtype findings of notes/C18.md (those are exercised by the 1-D typed stream)
+        if ang:
+            dtype = rng.choice(["int16", "int32", "int64", "float32"])
+        else:
+            dtype = rng.choice(["uint8", "uint8", "uint16", "uint32", "uint64", "int8", "int16", "int32", "int64", "float32"])
+        if dtype != "float32":
+            if ang:
+                rows = [[int(math.floor(x)) for x in (([y for y in xs if not math.isnan(y)] or [0.0]) * n)[:n]] for xs in rows]
+            else:
+                full = dtype_pool(dtype)
+                if dtype.startswith("int"):
+                    c0 = rng.choice(full)
+                    full = [v for v in full if abs(v - c0) <= int(np.iinfo(dtype).max) // 2]
+                rows = [[rng.choice(pool) for _ in range(n)] for pool in
+                        (rng.sample(full, min(len(full), rng.randint(2, 4))) for _ in range(nrows))]
+    data = np.array(rows, dtype=dtype).reshape([sizes[d] for d in extras] + [n])
     order = dims[:]
     rng.shuffle(order)
     data = np.transpose(data, [dims.index(d) for d in order])
@@ -260,6 +448,8 @@ def gen_array_case(rng):
     req = None
     if kind in ("prop", "propsel"):
         pool = [0.0, 0.25, 0.5, 1.0, 2.0, 5.0, 45.0, 90.0] if (n - 2) in (1, 2, 4) else [0.1, 0.3, 0.7, 1.1, 2.3, 44.9]
+        if dtype not in ("float64", "float32") and not ang:
+            pool = pool + [100.1, 250.3, 65000.7, 1e9 + 0.3]
         thresholds = sorted(rng.sample(pool, rng.randint(1, 3)))
         mode = rng.choice(["none", "reduce", "preserve", "reduce_all", "preserve_all"])
         if mode == "reduce":
@@ -271,12 +461,12 @@ def gen_array_case(rng):
         elif mode == "preserve_all":
             req = ["preserve", "all"]
     return dict(angular=ang, n=n, extras=extras, sizes=sizes, order=order, data=data.tolist(), coords=coords, kind=kind, sels=sels,
-                thresholds=thresholds, req=req)
+                thresholds=thresholds, req=req, dtype=dtype)
 
 
 def _da(c):
     shape = [c["sizes"].get(d, c["n"]) for d in c["order"]]
-    a = np.array(c["data"], dtype=float).reshape(shape)
+    a = np.array(c["data"], dtype=c.get("dtype", "float64")).reshape(shape)
     return xr.DataArray(a, dims=list(c["order"]), coords={"lead": list(c["coords"])})
 
 
@@ -373,6 +563,8 @@ def run_arrays(ctx, cases, batch, kind):
         cj = dict(c)
         ctx.case(batch, cj, nontrivial=True)
         ctx.tag("arr-" + c["kind"] + ("-ang" if c["angular"] else "-lin"))
+        if c.get("dtype", "float64") != "float64":
+            ctx.tag("arr-dtype-" + c["dtype"])
         da = _da(c)
         site = "flip_flop_index_proportion_exceeding" if c["thresholds"] is not None else "flip_flop_index"
         sels = {k: list(v) for k, v in c["sels"].items()}
@@ -409,7 +601,7 @@ def run_arrays(ctx, cases, batch, kind):
                 rv = rv.transpose(*c["extras"])
                 for idx, e in plan["exp"][name].items():
                     v = float(rv.values[idx]) if c["extras"] else float(rv.values)
-                    if not core.close(v, e):
+                    if not core.close(v, e, rtol=typed_tol(c.get("dtype", "float64"))):
                         bad = (name, list(idx), v, e)
                         break
             else:
@@ -428,7 +620,7 @@ def run_arrays(ctx, cases, batch, kind):
                 break
         if bad:
             ctx.fail(batch, kind, site, "value" if bad[1] != "dims" else "dims", cj, observed={"selection": bad[0], "at": bad[1], "value": bad[2]},
-                     expected=bad[3], tags={"angular": c["angular"], "kind": c["kind"]})
+                     expected=bad[3], tags={"angular": c["angular"], "kind": c["kind"], "dtype": c.get("dtype", "float64")})
 
 
 # ----------------------------------------------------------------------------- the property oracle
@@ -537,6 +729,7 @@ def oracle(ctx, boost):
         ang = ang[::2]
     ang += [gen_angles(rng) for _ in range(ctx.n(500, 5000) * k)]
     check_angular(ctx, ang)
+    check_typed(ctx, typed_stream(ctx, k), "property", "dtypes-vs-spec")
     run_arrays(ctx, [gen_array_case(rng) for _ in range(ctx.n(120, 1200) * k)], "arrays-vs-spec", "property")
 
 
@@ -545,6 +738,14 @@ def replay(ctx, payload):
     sub = core.Ctx("C18", "quick", payload.get("seed", 0))
     if "order" in case:
         run_arrays(sub, [case], "replay", "property")
+    elif "dtype" in case:
+        dt = case["dtype"]
+        xs = [float(core.parse_fl(x)) if isinstance(x, str) else x for x in case["xs"]]
+        if np.dtype(dt).kind in "iu":
+            xs = [int(x) for x in xs]
+        for seed in range(6):
+            sub.rng.seed(seed)
+            check_typed(sub, [(xs, dt, bool(case.get("angular")))], "property", "replay")
     elif "xs" in case:
         xs = [float(core.parse_fl(x)) if isinstance(x, str) else float(x) for x in case["xs"]]
         for seed in range(6):
